@@ -92,7 +92,8 @@ def run(ctx, clauses=CLAUSES):
     for _ in range(700 if thorough else 90):
         big.append(sc.random_sinput(rng, FAM, 6 if thorough else 5, 4, 4, min_obj=5))
     big += directed_inputs(rng, 500 if thorough else 70)
-    e2 = tiny[::2] + mid if not thorough else tiny + mid
+    tiny3 = list(sc.small_inputs(FAM, gen.bin_shapes(3), gen.bin_shapes(3), LEAF_SYNS, sc.SUPER_COSTS[:1]))
+    e2 = (tiny[::2] + mid + tiny3[ctx.seed % 2::2]) if not thorough else tiny + mid + tiny3
     cases = [(FAM, inp, sc.CALLS) for inp in list(dict.fromkeys(e2 + big))]
     results = sc.run_all(cases)
     ctx.stage("solver runs")
